@@ -30,16 +30,20 @@ t_bool pad0, pad1, pad2, pad3, pad4, pad5, pad6, pad7;
   __CPROVER_assigns(__osmt_thrown, pad0, pad1, pad2, pad3, pad4, pad5, pad6, pad7) \
   __CPROVER_ensures(__osmt_thrown == 0 ==> (i128)RETV.val == (i128)self->val - (i128)other.val) \
   __CPROVER_ensures(__osmt_thrown != 0 ==> ((i128)self->val - (i128)other.val > (i128)PMAX || (i128)self->val - (i128)other.val < (i128)PMIN))
-/* unary minus has no overflow guard in the code: the negation of PTRDIFF_MIN is an obligation at this function */
+/* unary minus: the exact negation, or an exception at PTRDIFF_MIN */
 #define OSMT_CONTRACT_SafeInt__op_minus__void \
-  __CPROVER_requires(__CPROVER_is_fresh(self, sizeof(*self))) \
-  __CPROVER_assigns() \
-  __CPROVER_ensures((i128)RETV.val == -(i128)self->val)
+  __CPROVER_requires(__CPROVER_is_fresh(self, sizeof(*self)) && __osmt_thrown == 0) \
+  __CPROVER_assigns(__osmt_thrown) \
+  __CPROVER_ensures(__osmt_thrown == 0 ==> (i128)RETV.val == -(i128)self->val) \
+  __CPROVER_ensures(__osmt_thrown != 0 ==> self->val == PMIN)
+/* negate(c): for every integer t (ghost g_t):  not(t <= c)  <=>  (-t <= negate(c));  equivalently negate(c) == -(c+1).
+   Where -(c+1) is not representable (c == PTRDIFF_MAX gives PTRDIFF_MIN, representable; c+1 itself is not) an exception is allowed. */
 #define OSMT_CONTRACT_Converter_SafeInt__negate \
-  __CPROVER_requires(__CPROVER_is_fresh(val, sizeof(*val))) \
-  __CPROVER_assigns() \
-  __CPROVER_ensures((g_t > val->val) == (-(i128)g_t <= (i128)RETV.val)) \
-  __CPROVER_ensures((i128)RETV.val == -((i128)val->val + 1))
+  __CPROVER_requires(__CPROVER_is_fresh(val, sizeof(*val)) && __osmt_thrown == 0) \
+  __CPROVER_assigns(__osmt_thrown) \
+  __CPROVER_ensures(__osmt_thrown == 0 ==> ((g_t > val->val) == (-(i128)g_t <= (i128)RETV.val))) \
+  __CPROVER_ensures(__osmt_thrown == 0 ==> (i128)RETV.val == -((i128)val->val + 1)) \
+  __CPROVER_ensures(__osmt_thrown != 0 ==> val->val == PMAX)
 #define OSMT_CONTRACT_Converter_SafeInt__getValue__ptrdiff_t \
   __CPROVER_assigns() __CPROVER_ensures(RETV.val == val)
 /* Converter<Delta>::negate(c): not(x <= c) <=> -x <= -c - delta, i.e. the pair (-c, -1) */
